@@ -24,8 +24,13 @@ def enum_of(err):
     return common.exc_enum(err)
 
 
+def fresh(s):
+    """a string equal to s that is not the same object (names that come from a file or a message)"""
+    return ''.join(list(s)) if len(s) > 1 else (s + '_')[:1]
+
+
 def mk_etype(e):
-    return edzed.Goto(e[1]) if e[0] == 'goto' else e[1]
+    return edzed.Goto(fresh(e[1])) if e[0] == 'goto' else fresh(e[1])
 
 
 def c_etype(e):
@@ -378,7 +383,7 @@ def check(run):
                 "definitions. Observed per event: return value or exception class, state, output, "
                 "Circuit.error, the complete ordered log of callbacks (with the tag visible through "
                 "fsm_event_data) and probe deliveries. Non-trivial = >= 4 log entries; distinct by JSON.")
-    n = 800 if run.tier == 'quick' else 10000
+    n = 800 if run.tier == 'quick' else 30000
     cases = [gen_case(run.rng) for _ in range(n)] + [gen_bad_class(run.rng) for _ in range(n // 10)]
     for c in cases:
         run.count('nstates=%d' % len(c['def']['states']))
